@@ -318,9 +318,12 @@ func fileDestination(target, dep *BuildTarget, out string, dir, outPrefix, test 
 	return handleDir(dep.Label.PackageName, out, dir)
 }
 
-// Encloses the given string in quotes if needed.
+// Encloses the given string in quotes if needed, so that the shell reads it as one word standing for itself.
 func quote(s string) string {
-	if strings.ContainsAny(s, "|&;()<>") {
+	if strings.ContainsAny(s, "$`\\\"") {
+		// Double quotes would not protect these; use single quotes, within which only ' itself needs care.
+		return "'" + strings.ReplaceAll(s, "'", `'\''`) + "'"
+	} else if strings.ContainsAny(s, "|&;()<> \t'*?[#~") {
 		return "\"" + s + "\""
 	}
 	return s
